@@ -56,6 +56,9 @@ Stop == ~(pc = "idle" /\ runs = MaxRuns)
 (* focus for the long-chain export: one session, the newest version announced *)
 OneSession == (\A i \in 1..Len(vers) : V(i).sess = 1) /\ ~moved /\ cur = Len(vers)
 
+(* focus for the three-run export: the first run only brings the local copy into being *)
+FirstRunClean == (runs = 0) => (faults = 0)
+
 Emit == (pc = "done" /\ runs = MaxRuns) =>
           PrintT(<<"REPLAY", ToJson([vers |-> vers, etag |-> etagOn, variant |-> Variant, runs |-> h])>>)
 =============================================================================
